@@ -12,6 +12,11 @@ PidOf(a) == VPid(a, <<0,0,0,1>>, <<0,0,0,2>>, <<0,0,0,3>>, <<>>)
 EncoderCases ==
   { [terms |-> <<Ctl, VTuple([i \in 1..n |-> AtomN(i)])>>, atoms |-> n] : n \in {0, 1, 2, 3, 4, 5, 254, 255, 256, 300} }
   \cup { [terms |-> <<VTuple(<<SmallInt(2), VAtom(<<>>), PidOf(AtomN(1))>>), MkList([i \in 1..n |-> AtomN(i)], VNil)>>, atoms |-> IF n = 0 THEN 2 ELSE n + 1] : n \in {0, 1, 2, 3, 252, 253, 254} }
+  \* the limit is on the distinct atoms of control message and payload TOGETHER: a in the control message, b in the payload,
+  \* the first `sh` of them shared
+  \cup { [terms |-> <<VTuple([i \in 1..x[1] |-> AtomN(i)]), VTuple([i \in 1..x[2] |-> AtomN(x[1] - x[3] + i)])>>, atoms |-> x[1] + x[2] - x[3]] :
+            x \in {<<128, 127, 0>>, <<128, 128, 0>>, <<6, 249, 0>>, <<6, 252, 0>>, <<255, 1, 0>>, <<1, 255, 0>>, <<254, 1, 0>>, <<200, 100, 0>>, <<255, 255, 0>>,
+                    <<200, 200, 150>>, <<200, 200, 144>>, <<255, 255, 255>>, <<255, 255, 254>>} }
   \cup { [terms |-> <<Ctl, VTuple([i \in 1..n |-> IF i = pos THEN LongAtom(len, 98) ELSE AtomN(i)])>>, atoms |-> n] :
             n \in {1, 2, 3, 4, 5}, pos \in {1, 2, 5}, len \in {0, 1, 255, 256, 300} }
   \cup { [terms |-> <<VTuple(<<SmallInt(1), PidOf(AtomN(1)), PidOf(AtomN(2))>>)>>, atoms |-> 2],
